@@ -7,6 +7,13 @@ WHAT = "encode ok but decode failed or the decoded geometry is not Equivalent to
 EXTRA = ('in','out','derr')
 
 
+def tagger(r):
+    # input class of finding F20 (validated separately so that it cannot hide anything else)
+    if r.get("e") == "RT" and r.get("gt") == "mesh" and r.get("m") == "seq" and r.get("cc") and r.get("short3") and r.get("eok") and not r.get("dok"):
+        return {"input": "compress_connectivity", "stream": "fewer_than_3_bytes_per_face", "method": "sequential"}
+    return None
+
+
 def check(v, tier, seed):
     exe = vlib.build_drv("drv_rt")
     wd = vlib.workdir("C01")
@@ -20,7 +27,7 @@ def check(v, tier, seed):
             v.violation({"what": "codec crashed during the %s campaign" % name, "rc": err[0], "output": err[1][-1500:]}, tags={"kind": "crash"})
             continue
         stats.append(st)
-        recs, n = rtcommon.validate(v, "C01", f, WHAT, extra=EXTRA)
+        recs, n = rtcommon.validate(v, "C01", f, WHAT, extra=EXTRA, tagger=tagger)
         recs_by[name] = recs
         total += n
     rtcommon.cover(v, recs_by, stats, total)
